@@ -5,7 +5,6 @@ import (
 	"encoding/json"
 	"errors"
 	"fmt"
-	"reflect"
 	"runtime"
 	"strings"
 	"sync"
@@ -422,7 +421,7 @@ func (ss *session) run(at attempt) *attemptState {
 		// what the handler was handed must still read the same when Stream has returned
 		st.mu.Lock()
 		for i, snap := range st.snaps {
-			if snap != nil && !reflect.DeepEqual(snap, st.got[i]) {
+			if snap != nil && !txEqual(snap, st.got[i]) {
 				a, _ := json.Marshal(snap)
 				b, _ := json.Marshal(st.got[i])
 				st.unstable = fmt.Errorf("delivered transaction %d reads differently after Stream returned than inside its handler call:\n in the handler: %.500s\n afterwards: %.500s", i, a, b)
